@@ -3,11 +3,11 @@ EXPLANATION = ('cbmc over the real vr32.c arithmetic: (1) slew set-up set_step_s
                'lengths: the per-frame increment has the sign of (target - step), the total movement over slew_len frames is within half a '
                '2^-32 unit per frame of the target (so the final snap is below one LSB per frame: monotone up to that LSB), the int and '
                'int64 division paths agree; (2) poly_fir_u / poly_fir_d: per output frame the read position advances by step and step by '
-               'step_step exactly once (incomplete pair rolled back), stops only when input is exhausted; (2b) one real vr_process call across the octave boundary at ratio 1, both directions (path-wise symbolic execution; kernels replaced at goto level by no-frame stubs): the fade-in and fade-out streams describe the same ratio, slew rate and input instant; (3) soxr.c: ratio and slew '
+               'step_step exactly once (incomplete pair rolled back), stops only when input is exhausted; (2b) one real vr_process call across the octave boundary at ratio 1 and at ratio 2, both directions (path-wise symbolic execution; kernels replaced at goto level by no-frame stubs): the fade-in and fade-out streams describe the same ratio, slew rate and input instant; (3) soxr.c: ratio and slew '
                'length are forwarded to every channel of a variable-rate engine, constant-rate engines refuse a different ratio with an '
                'error and stay unchanged (one call from any API state).')
 ASSUMPTIONS = ['audio statements (-80 dB residual, no discontinuity at ratio changes and cross-fades) are floating-point/IIR properties: NOT decided (DESIGN.md section 9) - partial',
-               'stage switches between stages >= 1 (both decimating: the rescaling is a plain halving / doubling) are not encoded, only the 0 <-> -1 switch where the stream changes kernel family; slew length constant per obligation and |target - step| < 2^20 in the quick tier (symbolic lengths / full ranges gave no verdict on any back end)']
+               'stage switches are encoded for stages -1 <-> 0 <-> 1 (those above repeat the 0 <-> 1 case with other FIFO contents); slew length constant per obligation and |target - step| < 2^20 in the quick tier (symbolic lengths / full ranges gave no verdict on any back end)']
 
 def obligations(tier):
     obls = [vr_obl(1), vr_obl(2)]
@@ -16,7 +16,7 @@ def obligations(tier):
     if tier == 'thorough':
         obls += [vr_obl(0, sl, difbits=34, timeout=1800, tiers=('thorough',)) for sl in ('7', '1000')]
     obls += [vr_obl(4, sl) for sl in ('7', '1000')]      # vr_set_io_ratio while a cross-fade is running: both streams slew to the same ratio
-    obls += [vr_switch_obl(0), vr_switch_obl(1)]      # the stage-switch block of the real vr_process, both directions across ratio 1
+    obls += [vr_switch_obl(0), vr_switch_obl(1), vr_switch_obl(2), vr_switch_obl(3)]      # the stage-switch block of the real vr_process, both directions across ratio 1
     for kind in (8, 2, 3):
         obls.append(api_step(4, 0, 0, kind, 2))
     obls.append(lsr_obl(0, 8, 2, '2.0'))
